@@ -325,6 +325,98 @@ def run(tier, seed):
             ok = bool(cl) and all(any(nf.dominates(c.block.id, e.block.id) and (c.block.id != e.block.id or c.idx < e.idx) for c in cl) for e in eff)
             rep.check(rid, ok and bool(eff), "lha_reader_next_file closes the decoder before it advances the input or changes the current entry (%d effect sites)" % len(eff),
                       nf.file, None, function=nf.cname, obj="close-first")
+        # ---- R6: member-scoped reader state is reset at every change of entry ----------------------------------------------------------
+        # Whatever a decode operation (read / check / extract) writes into the reader must not be visible to the next member, otherwise
+        # what was done with member k changes what member k+1 yields.  The fields such operations write are discovered from the call
+        # graph; apart from the two documented lists, each must be put back to its constructor value on every path through
+        # lha_reader_next_file (directly, through a helper that does so on all of its paths, or found already holding that value).
+        rid = rep.rule("R6", "every LHAReader field written beneath lha_reader_read/check/extract (other than the documented dir_stack / deferred_symlinks lists) is reset "
+                             "to its initial value on every path through lha_reader_next_file", 2)
+        PERSISTENT = {"dir_stack": "documented: extracted directories are re-presented after their contents (END_OF_DIR / END_OF_FILE policies)",
+                      "deferred_symlinks": "documented: dangerous symlinks are re-presented at end of archive"}
+        ops = [mod.fn(n) for n in ("lha_reader_read", "lha_reader_check", "lha_reader_extract")]
+        nf6 = rep.need(rid, mod.fn("lha_reader_next_file"), "function lha_reader_next_file")
+        for n, f_ in zip(("lha_reader_read", "lha_reader_check", "lha_reader_extract"), ops):
+            rep.need(rid, f_, "function " + n)
+        if nf6 and all(ops):
+            reach = cg.reachable([f_.name for f_ in ops])
+            rdt = mod.types.get("%struct._LHAReader") or {}
+            fields = [fd.get("name") for fd in rdt.get("fields", [])]
+            scoped = {}
+            reach_all = reach | cg.reachable([nf6.name])
+
+            def read_back(fname):
+                """is the field read by the reader's operations in a way that can influence them (anything but updating the field itself,
+                as a statistics counter would)?"""
+                for g in mod.defined():
+                    if g.name not in reach_all:
+                        continue
+                    Mg = Matcher(g)
+                    own_stores = {st.id for st in stores_to_field(mod, RD, fname, [g])}
+                    for ld in g.insts():
+                        if ld.op != "load" or Mg.match(("field", RD, fname, ANY), ld.ops[0], {}) is None:
+                            continue
+                        seen, todo = set(), [ld.id]
+                        while todo:
+                            v = todo.pop()
+                            if v in seen:
+                                continue
+                            seen.add(v)
+                            for u in g.users(v):
+                                if u.op in ("add", "sub", "mul", "zext", "sext", "trunc", "or", "and", "xor", "shl", "lshr"):
+                                    todo.append(u.id)
+                                elif u.op == "store" and u.id in own_stores and u.ops[0] == ("v", v):
+                                    continue
+                                else:
+                                    return True
+                return False
+            for fname in fields:
+                sts = [st for g in mod.defined() if g.name in reach for st in stores_to_field(mod, RD, fname, [g])]
+                if sts and fname not in PERSISTENT and read_back(fname):
+                    scoped[fname] = sts
+            rep.check(rid, {"decoder", "inner_decoder"} <= set(scoped), "member-scoped fields discovered", nf6.file, "found %s" % sorted(scoped), function="LHAReader", obj="fields")
+            memo = {}
+
+            def resets(fn_, fname, depth=0):
+                """does fn_ (taking the reader as parameter 0) leave reader-><fname> at 0 on every path to every return?"""
+                key = (fn_.name, fname)
+                if key in memo:
+                    return memo[key]
+                memo[key] = False
+                Ff, Mf = ctx.facts(fn_), Matcher(fn_)
+                fld = ("load", ("field", RD, fname, ("param", 0)))
+                cut = set(Ff.edges_with_fact(("eq", fld, 0)))
+                nonconst = []
+                for st in stores_to_field(mod, RD, fname, [fn_]):
+                    if st.ops[0][0] == "null" or (is_const(st.ops[0]) and const_val(st.ops[0]) == 0):
+                        cut |= {(st.block.id, x) for x in st.block.succs} | ({(st.block.id, "ret")} if not st.block.succs else set())
+                    else:
+                        nonconst.append(st)
+                if depth < 3:
+                    for c in fn_.insts():
+                        if c.op == "call" and c.callee and c.ops:
+                            g = mod.functions.get(c.callee)
+                            a0 = fn_.defn(Mf.strip(c.ops[0], ("bitcast",)))
+                            if g is not None and not g.decl and a0 is not None and a0.is_param and a0.index == 0 and g.params and "LHAReader" in (g.params[0].ty or "") \
+                                    and resets(g, fname, depth + 1):
+                                cut |= {(c.block.id, x) for x in c.block.succs} | ({(c.block.id, "ret")} if not c.block.succs else set())
+                ok = not nonconst
+                for r in rets(fn_):
+                    if (r.block.id, "ret") in cut:
+                        continue
+                    if r.block.id == 0 or Ff.reaches_avoiding(0, r.block.id, cut):
+                        ok = False
+                memo[key] = ok
+                return ok
+            for fname in sorted(scoped):
+                w = sorted({st.fn.cname for st in scoped[fname]})
+                ok = resets(nf6, fname)
+                rep.check(rid, ok, "reader->%s (written beneath a decode operation in %s) is reset on every path through lha_reader_next_file" % (fname, ", ".join(w)), nf6.file,
+                          None if ok else "some path through lha_reader_next_file (and the helpers it calls with the reader) neither stores 0 to the field nor finds it 0: "
+                          "what a decode operation on one member left there is seen by the next", function=nf6.cname, obj="reset-" + fname)
+            for fname, why in sorted(PERSISTENT.items()):
+                rep.ok(rid, "reader->%s persists across members by design: %s" % (fname, why), None, nf6.file)
+
         # ---- R5: the lead-in buffer is empty before any skip ----------------------------------------------------------------------
         # lha_input_stream_skip goes straight to the underlying stream; bytes still waiting in the lead-in buffer would be skipped over
         # *in addition*, so how a member is passed over would change what follows.  It is sound only because every successful header
